@@ -141,6 +141,8 @@ let adata_of s : adata = match lst s with
 let rec spec_of s : astate nspec = match lst s with
   | [Atom "strat"; id; fi; kids; algos] ->
     SpStrat (natx id, bool_of fi, mk_astate true (List.map algo_of (lst algos)), List.map spec_of (lst kids))
+  | [Atom "late"; id; fi; kids; algos] ->
+    SpLate (natx id, bool_of fi, mk_astate true (List.map algo_of (lst algos)), List.map spec_of (lst kids))
   | [Atom "sec"; id; cls; fi; mult; lz] -> SpSec (natx id, class_of cls, bool_of fi, num_of mult, bool_of lz)
   | [Atom "strat"; id; fi; kids] -> SpStrat (natx id, bool_of fi, mk_astate false [], List.map spec_of (lst kids))
   | _ -> failwith "spec"
